@@ -68,7 +68,7 @@ def check_exp(w, rep, name, G, tier):
         for desc, Eb in bs:
             inst = "%s: sum_k x_k dE/dx_k = wedge(x) E  on %s%s" % (name, how, "" if desc == "-" else " [branch %s]" % ("shadow" if "T" in desc[-2:] else "principal"))
             shadow = desc != "-" and desc.endswith("T")
-            v, d = decide_mat(radial(Eb, x), cm.matmul(Xm, Eb))
+            v, d = decide_by_cases(radial(Eb, x), cm.matmul(Xm, Eb))
             if v == EQUAL:
                 rep.ok("C02.ode", inst, fact={"cells": Eb.r * Eb.c, "closed_form_terms": sum(len(p.t) for p in Eb.flat())})
             elif v == DIFFERENT:
@@ -226,12 +226,15 @@ def run(w, rep, tier):
     rep.rule("C02.inv", "E(-x) E(x) = I on the closed form")
     rep.rule("C02.form", "parameter-level forms: Rodrigues, half-angle quaternion, tan(theta/4) MRP, SE(2) V-matrix, SE(3) translation through J_l; coefficients located in the series table by formula, argument kind theta vs theta^2 included")
     rep.rule("C02.flow", "Euler exp is from_Dcm(SO3Dcm.exp)")
+    rep.rule("C02.table", "necessary for the branch below the switch: every coefficient's small-argument branch is the default order-6 Taylor polynomial of the SAME formula, switched at |x| < 1e-3 (shared with C06.table)")
     rep.rule("C02.nilpotent", "R^n: algebra matrices multiply to zero hence expm = I + wedge")
     rep.rule("C02.direct-product", "direct-product exp is factor-wise on the factors' slices")
     groups = [(nm, w.G(nm)) for nm in GROUPS12]
     for nm, G in groups:
         check_exp(w, rep, nm, G, tier)
     check_textbook(w, rep)
+    from .c06 import check_table
+    check_table(w, rep, rule="C02.table")
     check_shadow_invariance(w, rep)
     check_rn_nilpotent(w, rep)
     check_direct_product_exp(w, rep)
